@@ -12,5 +12,11 @@ for c in "$@"; do
   VERIF_REPO=$S timeout 3000 ./check $c --tier ${TIER:-quick} > /tmp/mut_${TAG}_$c.log 2>&1; rc=$?
   echo "== $TAG $c exit=$rc"; grep -E "^VIOLATION|^KNOWN-FINDING|INFRA| ok | FAIL " /tmp/mut_${TAG}_$c.log | grep -v "^KNOWN-FINDING" | head -5
 done
+# the translator tables (coq/Gen_*.v) were regenerated from the scratch copy: regenerate them from /repo
+for c in "$@"; do python3 -c "
+import sys; sys.path.insert(0,'/verif')
+import importlib; m = importlib.import_module('checks.$c')
+if hasattr(m, 'pregen'): m.pregen()
+" >/dev/null 2>&1; done
 H=$(python3 -c "import hashlib,sys; print(hashlib.sha1(sys.argv[1].encode()).hexdigest()[:8])" $S)
 rm -rf $S /verif/.build/cgns_$H /verif/.build/h_$H
